@@ -40,7 +40,8 @@ except Exception as e:  # noqa
 
 gsel = GROUPS if THOROUGH else [BYNAME[n] for n in ("1", "-1", "222", "mmm", "4", "422", "4/mmm", "3", "32", "312", "-3m", "6", "622",
                                                       "6/mmm", "23", "m-3", "432", "m-3m", "-4", "mm2", "4mm", "-43m", "3m", "-6m2", "211", "m11")]
-for G in gsel:
+NV = P.get("nv", 3)
+for G in [g for g in gsel for _ in range(NV)]:
     cl = gclass(G)
     q = np.array([rand_unit_quat(R) for _ in range(NPTS)])
     O = Orientation(q, symmetry=G)
